@@ -625,6 +625,7 @@ class Namespace(Evaluatable[Options]):
                     default=value.default,
                     doc=value.__doc__ or "",
                     type=value.type,
+                    domain=value.domain,
                 )
             elif isinstance(value, _Auto):
                 members[name_] = value
@@ -635,7 +636,13 @@ class Namespace(Evaluatable[Options]):
             elif value is None or isinstance(
                 value, (str, int, float, bool, list, dict, Evaluatable)
             ):
-                members[name_] = Option(f"{key}.{name_}", default=value)
+                members[name_] = Option(
+                    f"{key}.{name_}",
+                    default=value,
+                    type=getattr(__namespace, "__annotations__", {}).get(
+                        name_, cast(Type, Any)
+                    ),
+                )
             else:
                 raise TypeError(
                     f"Namespace {key} has non-JSON-serializable default value {name_}: {value!r}"
@@ -651,7 +658,11 @@ class Namespace(Evaluatable[Options]):
                     value._inherit(parent)
                     if isinstance(value, Namespace)
                     else Option(
-                        f"{parent}.{value.key}", value.default, doc=value.__doc__ or ""
+                        f"{parent}.{value.key}",
+                        value.default,
+                        doc=value.__doc__ or "",
+                        type=value.type,
+                        domain=value.domain,
                     )
                     if isinstance(value, Option)
                     else value
